@@ -154,6 +154,7 @@ func camel(s string) string {
 // goPkgBase is the Go import path prefix of the scratch module for that runtime.
 func Corpus(goPkgBase string, thorough bool) []*File {
 	var out []*File
+	var extscopeFD *descriptorpb.FileDescriptorProto
 	add := func(f *fb, risky bool, note string) *File {
 		cf := &File{Pkg: f.pkg, FD: f.fd, Risky: risky, Note: note}
 		out = append(out, cf)
@@ -255,6 +256,37 @@ func Corpus(goPkgBase string, thorough bool) []*File {
 		}
 		add(f, false, "proto2 extensions with [default=...] declared inside a message")
 	}
+	// --- extensions declared at file level and inside a nested message of a message
+	{
+		f := newFile("extscope", "proto2", goPkgBase)
+		f.std()
+		base := f.msg("Base")
+		f.field(base, "id", 1, "int32", lOpt, "", "")
+		base.ExtensionRange = []*descriptorpb.DescriptorProto_ExtensionRange{{Start: proto.Int32(100), End: proto.Int32(200)}}
+		f.fd.Extension = append(f.fd.Extension,
+			&descriptorpb.FieldDescriptorProto{Name: proto.String("top_int"), Number: proto.Int32(100), Type: kindType["int32"].Enum(), Label: lOpt.Enum(), Extendee: proto.String(f.full("Base"))},
+			&descriptorpb.FieldDescriptorProto{Name: proto.String("top_str"), Number: proto.Int32(101), Type: kindType["string"].Enum(), Label: lOpt.Enum(), Extendee: proto.String(f.full("Base"))},
+			&descriptorpb.FieldDescriptorProto{Name: proto.String("top_msg"), Number: proto.Int32(102), Type: kindType["message"].Enum(), Label: lOpt.Enum(), Extendee: proto.String(f.full("Base")), TypeName: proto.String(f.full("Sub"))})
+		outer := f.msg("Outer")
+		inner := &descriptorpb.DescriptorProto{Name: proto.String("Deep")}
+		inner.Extension = append(inner.Extension, &descriptorpb.FieldDescriptorProto{Name: proto.String("deep_int"), Number: proto.Int32(110), Type: kindType["int64"].Enum(), Label: lOpt.Enum(), Extendee: proto.String(f.full("Base"))})
+		outer.NestedType = append(outer.NestedType, inner)
+		add(f, false, "proto2 extensions declared at file level and inside a nested message")
+		extscopeFD = f.fd
+	}
+	// --- a repeated extension
+	{
+		f := newFile("extrepeated", "proto2", goPkgBase)
+		f.std()
+		base := f.msg("Base")
+		f.field(base, "id", 1, "int32", lOpt, "", "")
+		base.ExtensionRange = []*descriptorpb.DescriptorProto_ExtensionRange{{Start: proto.Int32(100), End: proto.Int32(200)}}
+		holder := f.msg("Holder")
+		holder.Extension = append(holder.Extension,
+			&descriptorpb.FieldDescriptorProto{Name: proto.String("nums"), Number: proto.Int32(100), Type: kindType["int32"].Enum(), Label: lRep.Enum(), Extendee: proto.String(f.full("Base"))},
+			&descriptorpb.FieldDescriptorProto{Name: proto.String("names"), Number: proto.Int32(101), Type: kindType["string"].Enum(), Label: lRep.Enum(), Extendee: proto.String(f.full("Base"))})
+		add(f, true, "repeated proto2 extensions declared inside a message")
+	}
 	// --- structure
 	{
 		f := newFile("structure", "proto2", goPkgBase)
@@ -336,8 +368,9 @@ func Corpus(goPkgBase string, thorough bool) []*File {
 		add(f, false, "two nested messages with the same short name, only the first has a required field").SingleFileOnly = true
 	}
 	// --- imports: another corpus package and a well-known type
+	var o *fb
 	{
-		o := newFile("otherpkg", "proto3", goPkgBase)
+		o = newFile("otherpkg", "proto3", goPkgBase)
 		o.enum("OE")
 		om := o.msg("Other")
 		o.field(om, "n", 1, "int64", lOpt, "", "")
@@ -355,6 +388,33 @@ func Corpus(goPkgBase string, thorough bool) []*File {
 		cf := add(f, false, "message / enum types from another package and a well-known type")
 		cf.Deps = []*descriptorpb.FileDescriptorProto{o.fd, protodesc.ToFileDescriptorProto(timestamppb.File_google_protobuf_timestamp_proto)}
 		cf.Only = "google"
+	}
+	// --- another package used ONLY as the value type of a map
+	{
+		f := newFile("mapimport", "proto3", goPkgBase)
+		f.fd.Dependency = []string{"otherpkg/otherpkg.proto"}
+		m := f.msg("OnlyInMap")
+		f.mapField(m, "by_name", 1, "string", "message")
+		m.NestedType[0].Field[1].TypeName = proto.String(".csvcorpus.otherpkg.Other")
+		cf := add(f, true, "a message type from another package used only as a map value")
+		cf.Deps = []*descriptorpb.FileDescriptorProto{o.fd}
+		cf.Only = "google"
+	}
+	// --- a file without messages
+	{
+		f := newFile("enumonly", "proto3", goPkgBase)
+		f.enum("Lonely")
+		add(f, true, "a file that declares only an enum")
+	}
+	// --- an extension of a message of another file
+	{
+		f := newFile("extother", "proto2", goPkgBase)
+		f.fd.Dependency = []string{"extscope/extscope.proto"}
+		f.fd.Extension = append(f.fd.Extension, &descriptorpb.FieldDescriptorProto{Name: proto.String("other_int"), Number: proto.Int32(120), Type: kindType["int32"].Enum(), Label: lOpt.Enum(), Extendee: proto.String(".csvcorpus.extscope.Base")})
+		m := f.msg("Dummy")
+		f.field(m, "d", 1, "int32", lOpt, "", "")
+		cf := add(f, false, "a proto2 extension of a message declared in another file")
+		cf.Deps = []*descriptorpb.FileDescriptorProto{extscopeFD}
 	}
 	// --- special field name (gogo renames a field called Size)
 	{
